@@ -225,8 +225,22 @@ _SIG_RULE = ("functions generated over the five parameter kinds (0-2 of each, an
              "functions carrying the same inspect.Signature), one legal call shape each (positional / keyword / omitted, "
              "extra *args and **kwargs incl. a keyword named like a positional-only parameter), valid / invalid values per "
              "argument and for the return value; non-trivial = at least one checked parameter was supplied")
-PROPS["C08"] = {"theorems": [], "run": _run_sig, "replay": _replay_sig, "rule": _SIG_RULE}
-PROPS["C09"] = {"theorems": [], "run": _run_sig, "replay": _replay_sig, "rule": _SIG_RULE +
+PROPS["C08"] = {"theorems": ["C08_body_iff", "C08_invalid_args", "C08_all_pass", "C08_return", "C08_body_exception",
+                             "kwSlot_not_byKeyword", "posSlot_overflow"],
+                "modules": ["KodaModel.Properties.C08"],
+                "run": _run_sig, "replay": _replay_sig, "rule": _SIG_RULE,
+                "level_note": "the theorems are about `wrapCall` for every signature, call, body and validator evaluator; "
+                              "how Python binds a call to parameters (inspect.signature, defaults, TypeError for illegal calls) "
+                              "is not modelled: the stream generates legal calls and compares slot assignment, body-ran, "
+                              "error keys and delivered values with the real decorator"}
+PROPS["C09"] = {"theorems": ["C08_all_pass", "C09_unchecked_untouched", "C09_checked_payload", "C09_transparent_return",
+                             "slot_pass_iff", "C08_body_exception"],
+                "modules": ["KodaModel.Properties.C08"],
+                "level_note": "delivery and return transparency are proved for `wrapCall`; strictness of the default "
+                              "signature resolution (nothing is coerced) is decided by correspondence + oracle only (the "
+                              "annotation stream under the signature resolver), not by a theorem; name / docstring / "
+                              "coroutine-ness are checked on the real decorator only",
+                "run": _run_sig, "replay": _replay_sig, "rule": _SIG_RULE +
                 "; strictness: the C07 annotation grammar under the signature resolver x conforming values and look-alikes"}
 
 
